@@ -107,7 +107,7 @@ def run(ck):
     tries = [i for i in pm.walk() if pm.nodes[i]['k'] == 'CXXTryStmt']
     body_stmts = [k for k in pm.kids(pm.body)]
     handlers = [pm.nodes[j] for t in tries for j in pm.walk(t) if pm.nodes[j]['k'] == 'CXXCatchStmt']
-    catches_all = any(h.get('ct') in (None, '', '...') or 'std::exception' in (h.get('ct') or '') for h in handlers)
+    catches_all = any(h.get('caught') in (None, '', '...') or 'std::exception' in (h.get('caught') or '') for h in handlers)
     THROWING = ('CallExpr', 'CXXMemberCallExpr', 'CXXOperatorCallExpr', 'CXXConstructExpr', 'CXXTemporaryObjectExpr', 'CXXNewExpr', 'CXXThrowExpr',
                 'CXXDynamicCastExpr', 'CXXTypeidExpr', 'LambdaExpr', 'UserDefinedLiteral')
     outside = [k for k in body_stmts if not tries or k != tries[0]]
@@ -475,3 +475,23 @@ def run(ck):
     for fld, (src, s) in sorted(seen.items()):
         ck.ob('C38.flow', 'C38.flow/' + fld, src == want_key[fld], pm.loc(s),
               'output field %s is the string_value of the JSON member "%s" (found "%s")' % (fld, want_key[fld], src))
+
+    # ---- the parsed document is not modified while pointers into it are in use ------------------------------------------------------
+    # (parse_update_metadata keeps `const JsonValue*` results of find()/expect_*_field(); appending a member to the object they
+    # point into reallocates its vector and leaves them dangling)
+    from sa.flow import field_accesses as _fa38
+    roots = [pm.nodes[i] for i in pm.walk() if pm.nodes[i]['k'] == 'VarDecl' and pm.nodes[i].get('init') is not None and pm.nodes[i]['init'] >= 0 and
+             any((pm.nodes[j].get('callee') or '').endswith('JsonParser::parse') for j in pm.walk(pm.nodes[i]['init']))]
+    if len(roots) != 1:
+        raise AnalysisBroken('parse_update_metadata: the local holding parser.parse() was not found')
+    rd = roots[0]['d']
+    is_const = (roots[0].get('t') or '').startswith('const ')
+    muts = []
+    if not is_const:
+        for i, m_, w_ in _fa38(pm):
+            if w_ and any(pm.nodes[j]['k'] == 'DeclRefExpr' and pm.nodes[j].get('d') == rd for j in pm.walk(i)):
+                muts.append(i)
+        from sa.paths import local_writes as _lw38
+        muts += list(_lw38(pm, rd))
+    ck.ob('C38.mem', 'C38.mem/document-immutable', is_const or not muts, pm.loc(muts[0]) if muts else pm.loc(),
+          'the JsonValue returned by parser.parse() is const, or nothing in parse_update_metadata writes to it or to its members')
